@@ -10,6 +10,8 @@ import (
 	"runtime"
 	"sort"
 	"strings"
+	"sync"
+	"sync/atomic"
 	"time"
 
 	exserver "github.com/cybergarage/go-redis/examples/go-redisd/server"
@@ -50,6 +52,7 @@ type cluster struct {
 	execHeld bool
 	// AutoYields switches the inserted scheduling points on for this run
 	AutoYields bool
+	deadlocked atomic.Bool // a deadlock was reported at the inserted lock points
 	harnessGid uint64
 	// Contend[i]: the i-th acquisition of the command lock meets a busy lock (phantom holder, see contend)
 	Contend  []bool
@@ -59,7 +62,7 @@ type cluster struct {
 	Ticks []time.Duration
 	// TickGate (optional): ticks are offered only while it holds
 	TickGate func() bool
-	t0    time.Time
+	t0       time.Time
 	// harnessTask names the tasks that belong to the harness (TLS client goroutines), not to the server.
 	harnessTask map[string]bool
 	// OnRecord observes the example store's record accesses (task name, point, key).
@@ -113,22 +116,99 @@ func newCluster(tape *sim.Tape, o *Outcome) *cluster {
 	// scheduling points inserted by cmd/autoyield in front of every lock acquisition / sync.Map access of the
 	// framework, the auth package and the example store: switched on per run (AutoYields)
 	cl.harnessGid = sim.Goid()
+	// Read locks held per goroutine (announced acquisitions minus announced releases), the goroutines that wait at
+	// a read-lock point and those that wait at a write-lock point, per lock. A goroutine that holds a read lock
+	// and is about to take it again while a writer waits for that lock is a deadlock in reality (a pending Lock
+	// excludes new readers; the writer waits for the first read lock to be released): the gate below would hide
+	// it, because here the writer never gets as far as Lock(), so it is reported when the two meet.
+	readHeld := map[uint64]map[uintptr]int{}
+	readWait := map[uintptr]map[uint64]string{}
+	writeWait := map[uintptr]map[uint64]string{}
+	var hookMu sync.Mutex // teardown wakes every task at once
+	lockObj := map[uintptr]any{}
+	meet := func(key uintptr) {
+		for g, rp := range readWait[key] {
+			if readHeld[g][key] == 0 {
+				continue
+			}
+			if free := lockProbe(lockObj[key]); free != nil && free() {
+				// nobody holds the lock at all: a release was not announced (a form the rewriting does not see)
+				readHeld[g][key] = 0
+				continue
+			}
+			for w, wp := range writeWait[key] {
+				if w != g {
+					cl.O.violate("deadlock:recursive-read-lock-behind-waiting-writer:"+strings.TrimPrefix(rp, "rlock:"),
+						"a goroutine that already holds the read lock takes it again (%s) while another goroutine waits for the write lock (%s): the second RLock waits for the writer, the writer for the first read lock", rp, wp)
+					cl.deadlocked.Store(true)
+					return
+				}
+			}
+		}
+	}
+	held := func(g uint64, key uintptr, d int) {
+		hookMu.Lock()
+		defer hookMu.Unlock()
+		if readHeld[g] == nil {
+			readHeld[g] = map[uintptr]int{}
+		}
+		if readHeld[g][key]+d >= 0 {
+			readHeld[g][key] += d
+		}
+	}
+	wait := func(m map[uintptr]map[uint64]string, g uint64, key uintptr, point string, obj any) {
+		hookMu.Lock()
+		defer hookMu.Unlock()
+		if point == "" {
+			delete(m[key], g)
+			return
+		}
+		if m[key] == nil {
+			m[key] = map[uint64]string{}
+		}
+		m[key][g] = point
+		lockObj[key] = obj
+		if !s.Aborting() {
+			meet(key)
+		}
+	}
 	auto := func(point string, obj any) {
 		if !cl.AutoYields || !s.Serial || sim.Goid() == cl.harnessGid {
 			return // off, free-running, or the harness itself calling into the framework
 		}
+		g := sim.Goid()
+		key := lockKey(obj)
+		switch {
+		case strings.HasPrefix(point, "runlock:"):
+			held(g, key, -1)
+			return
+		case strings.HasPrefix(point, "unlock:"):
+			return
+		}
 		if s.CurrentTask() == "life" {
 			// lifecycle calls keep their hand-placed yields only: Stop closes the connections in Go map order, and
 			// scheduling points inside that loop would make the order part of the schedule
+			if strings.HasPrefix(point, "rlock:") {
+				held(g, key, 1)
+			}
 			return
 		}
 		s.Count("auto_yield_parks")
 		switch {
 		case strings.HasPrefix(point, "lock:"):
 			// gated like exec.lock: released only when the lock is free, so no task ever blocks on a real mutex
-			s.Park("?", "auto:"+point, obj, lockProbe(obj))
+			wait(writeWait, g, key, point, obj)
+			if s.Park("?", "auto:"+point, obj, lockProbe(obj)) && cl.deadlocked.Load() {
+				runtime.Goexit() // teardown after a reported deadlock: the goroutines involved must not run into it for real
+			}
+			wait(writeWait, g, key, "", nil)
 		case strings.HasPrefix(point, "rlock:"):
-			s.Park("?", "auto:"+point, obj, rlockProbe(obj))
+			wait(readWait, g, key, point, obj)
+			if s.Park("?", "auto:"+point, obj, rlockProbe(obj)) && cl.deadlocked.Load() {
+				runtime.Goexit()
+			}
+			wait(readWait, g, key, "", nil)
+			held(g, key, 1)
 		default:
 			s.Park("?", "auto:"+point, nil, nil)
 		}
@@ -147,6 +227,18 @@ func newCluster(tape *sim.Tape, o *Outcome) *cluster {
 		s.Park("?", "yield:"+point, nil, nil)
 	}
 	return cl
+}
+
+// lockKey identifies the lock behind obj (a pointer to a lock variable, or to a variable holding a pointer to one).
+func lockKey(obj any) uintptr {
+	rv := reflect.ValueOf(obj)
+	if !rv.IsValid() || rv.Kind() != reflect.Pointer || rv.IsNil() {
+		return 0
+	}
+	if e := rv.Elem(); e.Kind() == reflect.Pointer {
+		return e.Pointer()
+	}
+	return rv.Pointer()
 }
 
 type tryLocker interface {
@@ -349,6 +441,21 @@ func (cl *cluster) lifecycle(ops ...string) {
 
 // startServer runs Start to completion (no interleaving with anything else).
 func (cl *cluster) startServer() error { return cl.lifecycleNow("Start") }
+
+// appCall starts an application goroutine as a task of its own: it makes the call when the scheduler chooses it
+// (and is subject to the inserted scheduling points like every other goroutine that calls into the framework).
+func (cl *cluster) appCall(name string, f func()) {
+	cl.harnessTask[name] = true
+	go func() {
+		defer cl.S.Exit()
+		cl.S.Name(name)
+		if cl.S.Park(name, "call", nil, nil) {
+			return
+		}
+		f()
+		cl.S.Logf(name, "call returned")
+	}()
+}
 
 // lifecycleNow runs one lifecycle call to completion before anything else happens.
 func (cl *cluster) lifecycleNow(op string) error {
